@@ -110,6 +110,13 @@ REG = {
             "global RNG states, documented mapping where one exists (all-gather permutation, pseudo-label argmax/threshold/top-k, "
             "overwrite table, semi count), encodings non-negative / sum 1 / argmax preserved",
             "DESIGN.md §3 C16", TRUST + "; encoding wrappers: coherence checked up to decoding (stated in DESIGN.md)"),
+    "C17": ("exploration", "Hypothesis-generated collator configurations and batches; validity predicates on the emitted masks",
+            "DINO: mask tensor shape/dtype, number of non-empty masks <= floor(batch*views*mask_prob), per-mask cell budget, batch and "
+            "ctx untouched, no ctx -> nothing added; I-JEPA: index range, strict ordering, predictor masks are rectangles of one "
+            "common size, common encoder length above min_keep, encoder/predictor disjointness under the statement's own "
+            "precondition, block size independent of the rng seed at equal step counters, 1-4 consecutive calls; exceptions raised "
+            "inside kappadata for valid configurations are violations",
+            "DESIGN.md §3 C17", TRUST + "; I-JEPA domain restricted to configurations whose relaxation can terminate"),
 }
 
 NOT_YET = "check not built yet in this session (planned, see DESIGN.md §3)"
